@@ -366,6 +366,10 @@ func (v Value) orTerm(t Term) Value {
 }
 
 func patternOf(x ast.Expr) string {
+	return strings.ReplaceAll(patternOf0(x), "ξ", "#")
+}
+
+func patternOf0(x ast.Expr) string {
 	switch n := x.(type) {
 	case *ast.BasicLit:
 		if s, err := strconv.Unquote(n.Value); err == nil {
@@ -375,11 +379,11 @@ func patternOf(x ast.Expr) string {
 	case *ast.Ident:
 		return n.Name
 	case *ast.SelectorExpr:
-		return patternOf(n.X) + "." + n.Sel.Name
+		return patternOf0(n.X) + "." + n.Sel.Name
 	case *ast.ParenExpr:
-		return patternOf(n.X)
+		return patternOf0(n.X)
 	case *ast.StarExpr:
-		return patternOf(n.X)
+		return patternOf0(n.X)
 	}
 	return fmt.Sprintf("%T", x)
 }
@@ -469,9 +473,10 @@ func (env *SpecEnv) index(base, idx SpecVal) (SpecVal, error) {
 	}
 	if base.Typ != nil {
 		if mt, ok := base.Typ.Underlying().(*types.Map); ok {
-			_, _, vn, vs := e.mapHeaps(mt)
+			pn, ps, vn, vs := e.mapHeaps(mt)
 			k := env.convTo(idx, mt.Key())
-			return SpecVal{T: sel(sel(e.heap(env.st, vn, vs), base.T), k.T), Typ: mt.Elem()}, nil
+			present := and(not(eq(base.T, i64(0))), sel(sel(e.heap(env.st, pn, ps), base.T), k.T))
+			return SpecVal{T: ite(present, sel(sel(e.heap(env.st, vn, vs), base.T), k.T), e.zero(mt.Elem())), Typ: mt.Elem()}, nil
 		}
 	}
 	return SpecVal{}, fmt.Errorf("cannot index a value of sort %s", base.T.Sort)
@@ -705,6 +710,12 @@ func (env *SpecEnv) callExpr(n *ast.CallExpr) (SpecVal, error) {
 			if err != nil {
 				return SpecVal{}, err
 			}
+			if v.IsNil && v.T.S == "" {
+				r := env.nilOf(SpecVal{T: Term{Sort: e.sortOf(t)}})
+				r.Typ = t
+				r.IsNil = false
+				return r, nil
+			}
 			if v.T.Sort.bvWidth() > 0 && e.sortOf(t).bvWidth() > 0 {
 				return env.convTo(v, t), nil
 			}
@@ -778,6 +789,9 @@ func (env *SpecEnv) callExpr(n *ast.CallExpr) (SpecVal, error) {
 			if a, ok := args[0].Typ.Underlying().(*types.Array); ok {
 				return SpecVal{T: i64(a.Len()), Typ: intT}, nil
 			}
+			if mt, ok := args[0].Typ.Underlying().(*types.Map); ok && name == "len" {
+				return SpecVal{T: ite(eq(args[0].T, i64(0)), i64(0), e.mapLen(env.st, mt, args[0].T)), Typ: intT}, nil
+			}
 		}
 		return SpecVal{}, fmt.Errorf("%s of sort %s", name, args[0].T.Sort)
 	case "le16", "le32", "le64", "be16", "be32", "be64":
@@ -824,6 +838,46 @@ func (env *SpecEnv) callExpr(n *ast.CallExpr) (SpecVal, error) {
 			return SpecVal{}, fmt.Errorf("eqold: no entry state")
 		}
 		return env.eqBytes(args[0], env.st, args[1], env.old)
+	case "ufcall":
+		// ufcall("Pattern", i, recv?, args...): the i-th result of a `pure` contracted function applied to
+		// the given arguments (the same uninterpreted function the call sites use)
+		if len(n.Args) < 2 {
+			return SpecVal{}, fmt.Errorf("ufcall(pattern, index, args...)")
+		}
+		pat := patternOf(n.Args[0])
+		iv, err := env.eval(n.Args[1])
+		if err != nil || !iv.T.isC {
+			return SpecVal{}, fmt.Errorf("ufcall: constant result index needed")
+		}
+		var ct *Contract
+		for _, c := range e.p.contracts.Order {
+			if c.Pure && matchPattern(pat, c.Key) {
+				ct = c
+				break
+			}
+		}
+		if ct == nil {
+			return SpecVal{}, fmt.Errorf("ufcall: no pure contract matches %q", pat)
+		}
+		var vals []Value
+		var tys []types.Type
+		for _, a := range n.Args[2:] {
+			v, err := env.eval(a)
+			if err != nil {
+				return SpecVal{}, err
+			}
+			if v.IsNil && v.T.S == "" {
+				return SpecVal{}, fmt.Errorf("ufcall: untyped nil argument")
+			}
+			vals = append(vals, Value{T: v.T})
+			tys = append(tys, v.Typ)
+		}
+		rtp := e.p.resultType(ct.Key, int(iv.T.c))
+		if rtp == nil {
+			return SpecVal{}, fmt.Errorf("ufcall: cannot find result type of %s", ct.Key)
+		}
+		e.trust("pure (deterministic, state-independent) function assumed: " + ct.Key)
+		return SpecVal{T: env.f.ufResultSorts(ct.Key, int(iv.T.c), vals, rtp), Typ: rtp}, nil
 	case "buflen":
 		// buflen(b): ghost length of a *bytes.Buffer
 		args, err := evalArgs()
